@@ -98,3 +98,93 @@ func VerifH_C08_roundtrip() {
 	}
 	symReach("end")
 }
+
+// vC08Value: a value of the chosen storage class (symbolic numbers, one
+// symbolic byte of TEXT/BLOB) together with what a read must give back.
+type vWant struct {
+	kind int
+	i    int64
+	f    float64
+	b    []byte
+}
+
+func vC08Value(tag string) (sqlite.Value, vWant) {
+	switch symChoice("class-"+tag, 5) {
+	case 0:
+		i := symInt64("i" + tag)
+		return symSQLInt(i), vWant{kind: rINT, i: i}
+	case 1:
+		f := symFloat64("f" + tag)
+		symAssume(f == f)
+		return symSQLFloat(f), vWant{kind: rFLOAT, f: f}
+	case 2:
+		b := symBytes("s"+tag, 1)
+		return symSQLText(string(b)), vWant{kind: rTEXT, b: b}
+	case 3:
+		b := symBytes("b"+tag, 1)
+		return symSQLBlob(b), vWant{kind: rBLOB, b: b}
+	}
+	return symSQLNull(), vWant{kind: rNULL}
+}
+
+// H08b: UPDATE t SET b = v2 over a stored v1, for every pair of storage
+// classes and every pair of values (numerically equal values of different
+// classes, -0.0 over 0.0, NULL over a value and back): afterwards the column
+// reads v2 exactly, for the writer and for another connection.
+func VerifH_C08_update() {
+	v1, _ := vC08Value("1")
+	v2, want := vC08Value("2")
+	bkt := vNewBucket()
+	symS3Register(bkt.client(1))
+	c1 := vConnect()
+	vt, err := c1.vTable("t", false)
+	symAssert(err == nil, "table-ok")
+	symAssert(c1.conn.Update(symSQLNull(), symSQLNoChange(), symSQLText("@ins")) == nil, "set-write-time-ok")
+	tIns, _ := vWriteTimeOf(c1.m.sc.ctx)
+	symAssert(vt.Begin() == nil, "begin-ok")
+	_, err = vt.Insert(symSQLInt(7), v1, symSQLNull())
+	symAssert(err == nil, "insert-ok")
+	symAssert(vt.Sync() == nil && vt.Commit() == nil, "commit-ok")
+	symAssert(c1.conn.Update(symSQLNull(), symSQLNoChange(), symSQLText("@upd")) == nil, "set-write-time-ok")
+	tUpd, _ := vWriteTimeOf(c1.m.sc.ctx)
+	symAssume(tUpd > tIns)
+	symAssert(vt.Begin() == nil, "begin-ok")
+	symAssert(vSQLUpdateV(vt, 7, 1, v2) == nil, "update-ok")
+	symAssert(vt.Sync() == nil && vt.Commit() == nil, "commit-ok")
+	c2 := vConnect()
+	rt, err := c2.vTable("t-reader", true)
+	symAssert(err == nil, "reader-table-ok")
+	for pass := 0; pass < 2; pass++ {
+		tab := vt
+		if pass == 1 {
+			tab = rt
+		}
+		out, err := tab.BestIndex(&sqlite.IndexInfoInput{})
+		symAssert(err == nil, "bestindex-ok")
+		cur, err := tab.Open()
+		symAssert(err == nil, "open-ok")
+		symAssert(cur.Filter(out.IndexNumber, out.IndexString) == nil, "filter-ok")
+		symAssert(!cur.Eof(), "row-is-there")
+		ctx := symSQLContext()
+		symAssert(cur.Column(ctx, 1) == nil, "column-ok")
+		kind, p, n := symSQLResult(ctx)
+		if want.kind == rNULL {
+			symAssert(n == 0 || kind == rNULL, "updated-to-null-reads-null")
+			continue
+		}
+		symAssert(kind == want.kind, "storage-class-is-that-of-the-assigned-value")
+		if kind == want.kind {
+			switch want.kind {
+			case rINT:
+				symAssert(p.(int64) == want.i, "integer-is-the-assigned-value")
+			case rFLOAT:
+				symAssert(math.Float64bits(p.(float64)) == math.Float64bits(want.f), "real-is-bit-identical-to-the-assigned-value")
+			case rTEXT:
+				symAssert(p.(string) == string(want.b), "text-is-the-assigned-value")
+			case rBLOB:
+				symAssert(string(p.([]byte)) == string(want.b), "blob-is-the-assigned-value")
+			}
+		}
+	}
+	symReach("end")
+}
